@@ -734,6 +734,19 @@ def h_isclose(I, a, k, st, n):
     return _ew2(f, a[0], a[1], st)
 
 
+def h_squeeze(I, a, k, st, n):
+    """np.squeeze drops every axis of length 1 (an axis of symbolic length is a generic one and stays)."""
+    o = a[0]
+    if isinstance(o, X): return o
+    A = _arr(o, st) if isinstance(o, LocalArr) else as_arr(o)
+    if A is None or is_opaque(A): return Opaque("np.squeeze")
+    if k.get("axis") is not None or len(a) > 1: return Opaque("np.squeeze(axis=)")
+    keep = [(v, c) for v, c in A.axes if c.as_int() != 1]
+    if len(keep) == len(A.axes): return o
+    body = subst_val(A.body, {v: X.const(0) for v, c in A.axes if c.as_int() == 1})
+    return Arr(keep, body)
+
+
 def h_allclose(I, a, k, st, n):
     """np.allclose: a tolerance test - it does NOT establish equality of its operands, so nothing is learnt on the true branch."""
     text = " ".join(ast.unparse(n).split())[:120]
@@ -864,6 +877,7 @@ _reg("numpy.power", h_pow)
 _reg("numpy.pad", h_pad)
 _reg("numpy.correlate", h_correlate)
 _reg("numpy.allclose", h_allclose)
+_reg("numpy.squeeze", h_squeeze)
 _reg("numpy.broadcast_to", h_broadcast_to)
 _reg("scipy.signal.correlate", lambda I, a, kw, st, n: h_correlate(I, a, dict({"mode": a[2] if len(a) > 2 else "full"}, **kw), st, n))
 for _nm in ("numpy.convolve", "scipy.signal.convolve", "scipy.signal.fftconvolve", "scipy.signal.oaconvolve"): _reg(_nm, h_convolve)
@@ -941,7 +955,8 @@ def call_method(I, o, name, args, kw, st, n):
             if isinstance(o, (Arr, ArrParam)) and args and isinstance(args[0], Lib) and args[0].name.split(".")[-1] in ("int", "int64", "int32", "intp"):
                 return lift1(lambda x: x if lm.is_integer(x) else mk_fn("trunc", [x]), o)
             return o
-        if name in ("copy", "copy_to_host", "view", "squeeze"): return o
+        if name == "squeeze": return h_squeeze(I, [o] + list(args), kw, st, n)
+        if name in ("copy", "copy_to_host", "view"): return o
         if name in ("conj", "conjugate"): return elementwise(lambda x: x.conj())(I, [o], kw, st, n)
         if name == "item":
             A = _arr(o, st)
